@@ -153,4 +153,20 @@ PROPS = {
         level_text="Every file-system operation boundary of every generated history is used as a crash point (exhaustive per history), histories themselves are randomly explored.",
         level_note="Trusted: pebble's strict MemFS as the durability model; the model's prefix states.",
     ),
+    "C08": dict(
+        pkg="c08", level="exploration",
+        tests=[T("TestC08", Q(2000, timeout=400), Q(8000, timeout=1500, shards=16, shrinktime="60s"))],
+        rule="Generated: saver history (0-6 Update calls), PrepareSnapshot, 0-3 further Update calls, SaveSnapshot; a receiver with its own unrelated history (0-4 calls, synced or not); recovery with saver and "
+             "receiver formats drawn independently (snapshot/checkpoint, cross-format); one of: plain install, stop signal after k writer calls during save, stop signal after k reader calls during recover, "
+             "crash at EVERY file-system operation boundary inside RecoverFromSnapshot (crashfs, counted as separate evaluations), a lazy range sequence obtained before the install and consumed after it, "
+             "reader goroutines racing with the install. Oracle: receiver content/applied index/leader index == saver's model at prepare time; continuing with the post-prepare entries reaches the saver's state, also after reopen; "
+             "stopped save => ErrSnapshotStopped and saver intact; stopped install => receiver == its pre-install model, also after reopen; crash inside install => exactly the installed state or a prefix (>= last sync) "
+             "of the receiver's own log; overlapping reads: old state, new state or clean error, never a panic. Non-trivial iff writes between prepare and save AND (cross-format or interrupted), or a reader spanning the swap, "
+             "or a crash point inside the install. Distinct = sha256(case JSON [+ crash point]).",
+        assumptions=FSM_ASSUME + ["dragonboat documents that Lookup may run concurrently with RecoverFromSnapshot",
+                                  "while KNOWN_FINDINGS lists the read-across-install finding, racing readers are not executed (counted as excluded) because they panic or hang inside pebble in schedule-dependent ways"],
+        technique="property-based testing: snapshot round trip against a model, fault injection (stop signals, crash-point enumeration inside the install), deterministic and racing overlapping readers",
+        level_text="Randomised exploration of saver/receiver histories with exhaustive crash points inside each generated install.",
+        level_note="Trusted: internal/model; crash model as in C04.",
+    ),
 }
